@@ -87,8 +87,14 @@ func c04PagedFamily(e *Emitter, thorough bool) {
 		}
 		for _, pg := range pages {
 			for fl := 0; fl <= 4; fl++ {
-				for _, n := range sizes {
+				if fl == 3 && !thorough {
+					continue // a one-way write of a block-wise body delivers nothing (O1): thorough only
+				}
+				for ni, n := range sizes {
 					if n > 330 && !thorough {
+						continue
+					}
+					if !thorough && pg != 100 && ni != 1 {
 						continue
 					}
 					cfg := c04Base(fl, p.a, p.ma, p.b, p.mb, n)
